@@ -261,6 +261,7 @@ def _dataclass_apply(it, cls, frozen=False, eq_=True, **_kw):
     cls.is_dataclass = True
     cls.dc_frozen = frozen
     cls.dc_eq = eq_
+    cls.dc_unsafe_hash = bool(_kw.get("unsafe_hash", False))
     fields = []
     for name in getattr(cls, "annotated", []):
         d = cls.ns.get(name, MISSING)
